@@ -19,6 +19,32 @@ type pkgCase struct {
 	// sched bookkeeping: symbol name → id
 	Names map[string]int `json:"names,omitempty"`
 	Stats map[string]int `json:"-"`
+	// compile configuration (random dimension): source directory, cl.Config.RelativeBase
+	Dir     string `json:"dir,omitempty"`
+	RelBase string `json:"relbase,omitempty"`
+	Cfg     string `json:"cfg,omitempty"`
+}
+
+// configs: source directory vs RelativeBase (equal, trailing slash, parent, sibling with a common
+// string prefix, unrelated, root, empty, relative directories).
+var configs = [][3]string{
+	{"/pkg", "/", "root"},
+	{"/pkg", "/pkg", "equal"},
+	{"/pkg", "/pkg/", "equal-trailing-slash"},
+	{"/w/app/sub", "/w/app", "parent"},
+	{"/w/app2", "/w/app", "sibling-common-prefix"},
+	{"/w/app", "/other/place", "unrelated"},
+	{"/w/app", "", "empty-base"},
+	{"rel/pkg", "", "relative-dir-empty-base"},
+	{"rel/pkg2", "rel/pkg", "relative-sibling-common-prefix"},
+}
+
+func (c *pkgCase) setConfig(r *vh.Rand) {
+	if r.Chance(50) {
+		return // the default: /pkg with RelativeBase /
+	}
+	cfg := configs[r.Intn(len(configs))]
+	c.Dir, c.RelBase, c.Cfg = cfg[0], cfg[1], cfg[2]
 }
 
 func (c *pkgCase) fileNames() []string {
@@ -214,6 +240,7 @@ func genSched(r *vh.Rand, id int) *pkgCase {
 		}
 	}
 	c := &pkgCase{ID: id, Kind: "sched", Files: map[string]string{}, NErr: nerr, Names: map[string]int{}}
+	c.setConfig(r)
 	for f, b := range files {
 		c.Files[f] = b.String()
 	}
@@ -539,6 +566,33 @@ func genRich(r *vh.Rand, id int, withErr bool) *pkgCase {
 			g.w("Cat.t2spx", "func meow() int {\n\treturn %s\n}\n\n", g.intExpr("4"))
 		}
 	}
+	// script-style files: statements only, the first one at BYTE 0 of the file (class files: body of
+	// Main; one XGo file: body of main); empty files; files that consist of comments only
+	if pkgName == "main" {
+		for _, f := range pickFiles(r, []string{"Only.gox", "Zz.gox", "Aa.gox", "Mm.gox"}, r.Intn(4)) {
+			g.files[f] = &strings.Builder{}
+			g.w(f, "echo %s\necho \"%s\"\n", g.intExpr("1"), f)
+			if r.Bool() {
+				g.w(f, "if %s > 3 {\n\techo %s\n}\n", g.any(g.consts), g.intExpr("2"))
+			}
+			g.stats["file_script_class"]++
+		}
+		if !spx && r.Chance(40) {
+			f := []string{"script.xgo", "aaa_script.xgo", "zzz.gop"}[r.Intn(3)]
+			g.files[f] = &strings.Builder{}
+			g.w(f, "echo %s\nfor i <- 0:2 {\n\techo i + %s\n}\n", g.intExpr("1"), g.any(g.consts))
+			g.stats["file_script_main"]++
+		}
+		if r.Chance(25) {
+			g.files["empty.xgo"] = &strings.Builder{}
+			g.stats["file_empty"]++
+		}
+		if r.Chance(25) {
+			g.files["doc_only.gop"] = &strings.Builder{}
+			g.w("doc_only.gop", "// Only a comment.\n\n/* and a\n   block comment */\n")
+			g.stats["file_comment_only"]++
+		}
+	}
 	// independent errors in different files / symbols: undefined names, a type mismatch and EVERY kind
 	// of redeclaration (type / const / var / func / method / cross-kind), in the declaring file itself
 	// or in another XGo / Go / class file
@@ -607,6 +661,7 @@ func genRich(r *vh.Rand, id int, withErr bool) *pkgCase {
 		}
 	}
 	c := &pkgCase{ID: id, Kind: "rich", Files: map[string]string{}, NErr: g.nerr, Stats: g.stats}
+	c.setConfig(r)
 	for f, b := range g.files {
 		c.Files[f] = b.String()
 	}
